@@ -41,6 +41,10 @@ func main() {
 	noReopen := fl.Bool("noreopen", false, "no clean restarts in generated programs")
 	fsname := fl.String("fs", "crashfs", "file system: crashfs | mem | os | osmmap")
 	dir := fl.String("dir", os.TempDir(), "scratch directory for real file systems")
+	inject := fl.Bool("inject", false, "writers at the yield points of Compact")
+	backup := fl.Bool("backup", false, "Backup calls with injected writers")
+	scans := fl.Bool("scans", false, "scans stepped call by call between writes")
+	alt := fl.Bool("alt", false, "alternate fs.OS and fs.OSMMap between sessions (C02)")
 	in := fl.String("in", "", "program file (ndjson) to replay instead of random programs")
 	fl.Parse(os.Args[2:])
 	t0 := time.Now()
@@ -76,7 +80,7 @@ func main() {
 				cfg.Strict = *strict
 				p = h.GenProgram(rng, fmt.Sprintf("%s-%d-%d", *mode, *seed, i), cfg, h.GenOpts{
 					Keys: keys, Ops: *nops, BigVals: true, Compact: true, Reopen: !*noReopen, Sync: true, Reads: true,
-					CrashAt: *epochs, Close: !*noReopen && rng.Intn(2) == 0})
+					CrashAt: *epochs, Close: !*noReopen && rng.Intn(2) == 0, Inject: *inject, Backup: *backup, Scans: *scans})
 			}
 			rs := *seed + int64(i)
 			if *rseed != 0 {
@@ -130,9 +134,10 @@ func main() {
 			cfg.FS = *fsname
 			cfg.MaxSeg = []uint32{2048, 8192, 65536}[rng.Intn(3)]
 			p := h.GenProgram(rng, fmt.Sprintf("seq-%s-%d-%d", *fsname, *seed, i), cfg, h.GenOpts{
-				Keys: keys, Ops: *nops, BigVals: rng.Intn(3) == 0, Compact: true, Reopen: true, Sync: true, Reads: true, Close: false, Churn: true})
+				Keys: keys, Ops: *nops, BigVals: rng.Intn(3) == 0, Compact: true, Reopen: true, Sync: true, Reads: true, Close: false, Churn: true,
+				Inject: *inject, Backup: *backup, Scans: *scans, MoreReopen: *alt})
 			var r *h.Runner
-			rp := h.RunParams{Mode: "seq", Seed: *seed + int64(i), Probe: len(keys) > 16, FullEvery: 25}
+			rp := h.RunParams{Mode: "seq", Seed: *seed + int64(i), Probe: len(keys) > 16, FullEvery: 25, Alt: *alt}
 			if *fsname == "crashfs" {
 				r = h.NewRunner(rec, p, rp)
 			} else {
